@@ -136,11 +136,12 @@ def result_vector(ctx, sc, policy, workers, sched_seed, objects=None):
     return digest, vals, sched.take_records(), off_main
 
 
-def gen_windowed_scenario(rng):
+def gen_windowed_scenario(rng, quick=False):
     """A continuum large and sparse enough for the fast mode to record a finite window, with overlaps so that windowed
     and exact alignments of the samples can differ."""
-    n, k = rng.choice([(4, 14), (4, 14), (4, 16), (5, 12)])
-    cspec = cases.gen_continuum(rng, n_annot=n, sizes=[k] * n, family=rng.choice(["grid", "grid", "mixeddur"]), labels=cases.LABELS_SMALL)
+    # (5 annotators x 12 long-overlapping units can take a minute per run: thorough tier only)
+    n, k = rng.choice([(4, 14), (4, 14), (4, 16), (4, 16) if quick else (5, 12)])
+    cspec = cases.gen_continuum(rng, n_annot=n, sizes=[k] * n, family=rng.choice(["grid", "grid", "grid" if quick else "mixeddur"]), labels=cases.LABELS_SMALL)
     return {"continuum": cspec, "dissim": {"kind": "combined", "alpha": 1.0, "beta": 1.0, "delta": 1.0, "pos": None, "cat": None},
             "ground_truth": None, "ground_truth_as": "list", "sampler": rng.choice(["statistical", "shuffle_int"]), "mode": "fast",
             "n_samples": rng.choice([2, 2, 3]), "precision": None, "np_seed": rng.randrange(2 ** 31)}
@@ -178,6 +179,8 @@ def check_case(ctx, case):
     if "scenario" not in case:
         return None
     sc = case["scenario"]
+    import time as _t
+    _t0 = _t.time()
     try:
         base, base_vals, recs, off = result_vector(ctx, sc, "fifo", 1, 0)
     except Exception as e:
@@ -192,6 +195,9 @@ def check_case(ctx, case):
     schedules = [["repeat-same-objects:fifo", 1, 0], ["repeat-same-objects:lifo", 3, 1]] + schedules
     spare = None
     for k_run, (policy, workers, sseed) in enumerate(schedules):
+        if k_run >= 3 and ctx.out_of_time():
+            ctx.observe("schedules_dropped_for_time", "scenarios")      # a slow scenario: the remaining schedules are not run
+            break
         try:
             if policy.startswith("repeat-same-objects:"):
                 ctx.count("M-REPEAT")
@@ -207,6 +213,8 @@ def check_case(ctx, case):
         except Exception as e:
             ctx.fail_exc(f"run-raises:{policy}:{type(e).__name__}", e, monitor="M-REPRO")
             continue
+        if os.environ.get("C06_TIMING"):
+            print(f"TIMING {policy}/{workers} {_t.time() - _t0:.1f}s mode={sc['mode']} n={sc['n_samples']} kind={sc['dissim']['kind']}", file=sys.stderr, flush=True)
         ctx.count("M-REPRO")
         ctx.count("M-EXEC", len(recs))
         ctx.observe("policy", f"{policy}/{workers}")
@@ -263,7 +271,7 @@ def run(ctx):
         if resource.getrusage(resource.RUSAGE_SELF).ru_maxrss > 3_500_000:     # kB: compiled kernels are never freed
             ctx.observe("stopped_early", "memory: compiled kernels of the fresh dissimilarity objects")
             break
-        sc = gen_windowed_scenario(rng) if i % 5 == 4 else (gen_identical_scenario(rng) if i % 5 == 2 else gen_scenario(rng, dspecs))
+        sc = gen_windowed_scenario(rng, ctx.tier == "quick") if i % 5 == 4 else (gen_identical_scenario(rng) if i % 5 == 2 else gen_scenario(rng, dspecs))
         ctx.observe("scenario_kind", "fast-windowed-size" if i % 5 == 4 else ("identical-annotators" if i % 5 == 2 else "small"))
         k = ctx.scale(5, 8) if i % 5 != 4 else ctx.scale(3, 5)
         chosen = rng.sample(POLICIES, k)
